@@ -384,6 +384,148 @@ fn ttlcrash_run(report: &mut Report, seed: u64, rid: u64, dir: &str) -> Option<(
     None
 }
 
+/// More than 1024 non-adjacent extents to retire in ONE recovery (the repair journals them in
+/// chunks of 1024): expired newest generations sitting at LOWER sectors than the older durable
+/// generations they shadow. A crash between two chunks of recovery's own repair must not bring
+/// the older generations back (C04: restartable; C11: nothing older reappears).
+fn bigretire_run(report: &mut Report, seed: u64, rid: u64, dir: &str) -> Option<(String, String)> {
+    let mut rng = Rng::derive(seed, rid, 0xb16);
+    let base_now: u64 = 1_800_000_000 * NS;
+    let n = 1100 + rng.usize_below(300);
+    let mut cfg = Cfg::disk(16 + 8192);
+    cfg.ttl = true;
+    cfg.cache = false;
+    cfg.cpus = 2; // one shard, one worker: allocation order = call order
+    cfg.sync_io = true;
+    let path = format!("{dir}/big-{rid}.feox");
+    let _ = std::fs::remove_file(&path);
+    storeutil::ensure_device(&cfg, &path);
+    let base = vec![0u8; cfg.blocks as usize * 4096];
+    let mon = hub().watch(&path);
+    feoxdb::verif::set_thread_now_ns(base_now);
+    let store = storeutil::open(&cfg, Some(&path)).ok()?;
+    let small = |k: &[u8], seq: u32| values::make(Tag { key_id: kid(k), writer: 0, seq }, 60);
+    // low area occupied by junk (n*2 + 40 blocks), then g1 generations interleaved with live spacers above it
+    for i in 0..(2 * n + 40) {
+        let k = format!("junk-{i:05}").into_bytes();
+        store.insert(&k, &small(&k, 0)).ok()?;
+    }
+    store.flush().ok()?;
+    for i in 0..n {
+        let a = format!("a-{i:05}").into_bytes();
+        store.insert(&a, &small(&a, 1)).ok()?;
+        let sp = format!("s-{i:05}").into_bytes();
+        store.insert(&sp, &small(&sp, 1)).ok()?;
+    }
+    store.flush().ok()?;
+    for i in 0..(2 * n + 40) {
+        let k = format!("junk-{i:05}").into_bytes();
+        store.delete(&k).ok()?;
+    }
+    store.flush().ok()?;
+    // g2 (expiring) generations interleaved with new spacers: best fit puts them into the freed low area
+    for i in 0..n {
+        let a = format!("a-{i:05}").into_bytes();
+        store.insert_with_ttl(&a, &small(&a, 2), 1).ok()?;
+        let t = format!("t-{i:05}").into_bytes();
+        store.insert(&t, &small(&t, 1)).ok()?;
+    }
+    let before_flush = mon.len();
+    store.flush().ok()?;
+    drop(store);
+    let events = mon.take_events();
+    hub().unwatch(&mon);
+    let _ = std::fs::remove_file(&path);
+    // crash right after the g2 data became durable and its journal was cleared, before any g1 is retired:
+    // the first marker write after `before_flush`
+    let _ = before_flush;
+    let last_data = (0..events.len()).rev().find(|&i| matches!(&events[i], Ev::W { off, data, .. } if crate::mon::classify_write(*off, data) == crate::mon::IoClass::DataWrite))?;
+    let first_marker = (last_data..events.len()).find(|&i| matches!(&events[i], Ev::W { off, data, .. } if crate::mon::classify_write(*off, data) == crate::mon::IoClass::MarkerWrite))?;
+    // the retirement is journaled: cut BEFORE its journal intent, i.e. before the last journal write preceding the markers
+    let cut = (last_data..first_marker).rev().find(|&i| matches!(&events[i], Ev::W { off, data, .. } if crate::mon::classify_write(*off, data) == crate::mon::IoClass::JournalWrite))?;
+    let image = crashimg::build(&base, &events, &crashimg::Recipe { cut, keep: vec![], tear: None });
+    let both = match crate::indep::scan(&image, None, true) {
+        Ok(s) => {
+            if std::env::var("FVH_DEBUG").is_ok() {
+                let a0: Vec<(u64, u64)> = s.heads.iter().filter(|h| h.key == b"a-00000").map(|h| (h.sector, h.timestamp)).collect();
+                eprintln!("heads {} records {} markers {} a0 {:?} cut {} of {} shape-tail {}", s.heads.len(), s.records.len(), s.markers.len(), a0, cut, events.len(), crashimg::trace_shape(&events).chars().rev().take(60).collect::<String>().chars().rev().collect::<String>());
+            }
+            s.heads.len() - s.records.len()
+        }
+        Err(e) => {
+            report.inconclusive.push(format!("independent reader cannot read the bigretire image: {e}"));
+            0
+        }
+    };
+    report.count("keys_with_two_generations_on_disk", both as u64);
+    // first recovery: TTL on, clock past every g2 expiry, trace recorded
+    let ipath = format!("{dir}/big-{rid}.img");
+    std::fs::write(&ipath, &image).ok()?;
+    let mut rcfg = cfg.clone();
+    rcfg.ttl = true;
+    let rmon = hub().watch(&ipath);
+    feoxdb::verif::set_thread_now_ns(base_now + 10 * NS);
+    let first = match storeutil::open(&rcfg, Some(&ipath)) {
+        Ok(s) => s,
+        Err(e) => {
+            feoxdb::verif::set_thread_now_ns(0);
+            return Some(("bigretire:reopen-failed".into(), format!("{e:?}")));
+        }
+    };
+    let revents = rmon.take_events();
+    hub().unwatch(&rmon);
+    let present_first: Vec<Vec<u8>> = (0..n).map(|i| format!("a-{i:05}").into_bytes()).filter(|k| first.get(k).is_ok()).collect();
+    let live_first = first.len();
+    drop(first);
+    let journal_writes = revents.iter().filter(|e| matches!(e, Ev::W { off, data, .. } if crate::mon::classify_write(*off, data) == crate::mon::IoClass::JournalWrite)).count();
+    report.count("recovery_journal_writes", journal_writes as u64);
+    report.count("recovery_trace_events", revents.len() as u64);
+    if !present_first.is_empty() {
+        feoxdb::verif::set_thread_now_ns(0);
+        return Some(("bigretire:expired-visible".into(), format!("{} keys whose newest generation expired are readable after recovery", present_first.len())));
+    }
+    // crash between the chunks of recovery's repair: every position right after a completed fsync
+    let mut checked = 0;
+    let mut cuts: Vec<usize> = (1..revents.len()).filter(|&i| matches!(revents[i - 1], Ev::Fe { ok: true })).collect();
+    if cuts.len() > 14 {
+        rng.shuffle(&mut cuts);
+        cuts.truncate(14);
+    }
+    for c in cuts {
+        let inner = crashimg::build(&image, &revents, &crashimg::Recipe { cut: c, keep: vec![], tear: None });
+        let p2 = format!("{dir}/big-{rid}-{c}.img");
+        std::fs::write(&p2, &inner).ok()?;
+        let second = match storeutil::open(&rcfg, Some(&p2)) {
+            Ok(s) => s,
+            Err(e) => {
+                feoxdb::verif::set_thread_now_ns(0);
+                return Some(("bigretire:restart-failed".into(), format!("after a crash inside recovery's repair (after {c} of {} events) the next open fails: {e:?}", revents.len())));
+            }
+        };
+        let resurrected: Vec<Vec<u8>> = (0..n).map(|i| format!("a-{i:05}").into_bytes()).filter(|k| second.get(k).is_ok()).collect();
+        let live = second.len();
+        let _ = std::fs::remove_file(&p2);
+        crate::engines::crash::REAPER.with_store(second);
+        checked += 1;
+        report.evaluations += 1;
+        report.nontrivial.insert(fnv_mix(rid, c as u64));
+        if !resurrected.is_empty() || live != live_first {
+            feoxdb::verif::set_thread_now_ns(0);
+            return Some((
+                "bigretire:older-generation-resurrected".into(),
+                format!("recovery had to retire {} extents in {} journaled chunks; after a crash following event {c} of its {} repair events, the next recovery serves {} keys again with their OLDER generation (their newest generation had expired and was already retired) — first recovery: {} live keys, now {}; e.g. {}", 2 * n, journal_writes / 2, revents.len(), resurrected.len(), live_first, live, resurrected.first().map(|k| hex(k)).unwrap_or_default()),
+            ));
+        }
+    }
+    feoxdb::verif::set_thread_now_ns(0);
+    let _ = std::fs::remove_file(&ipath);
+    report.count("inner_crash_points_checked", checked);
+    if report.samples.is_empty() {
+        report.sample(json!({"run": rid, "keys": n, "two_generation_keys_on_image": both, "recovery_journal_writes": journal_writes, "inner_cuts": checked}));
+    }
+    None
+}
+
 pub fn run(args: &Args) -> Report {
     let mode = args.get("mode").unwrap_or("sweeper").to_string();
     let mut report = Report::new(
@@ -402,7 +544,11 @@ pub fn run(args: &Args) -> Report {
         if r % shards != shard {
             continue;
         }
-        let f = if mode == "sweeper" { sweeper_run(&mut report, args.seed, r, &scratch.0) } else { ttlcrash_run(&mut report, args.seed, r, &scratch.0) };
+        let f = match mode.as_str() {
+            "sweeper" => sweeper_run(&mut report, args.seed, r, &scratch.0),
+            "bigretire" => bigretire_run(&mut report, args.seed, r, &scratch.0),
+            _ => ttlcrash_run(&mut report, args.seed, r, &scratch.0),
+        };
         if let Some((sig, msg)) = f {
             report.violation(sig, msg, json!({"engine": "sweep", "mode": mode, "seed": args.seed, "run": r}));
             if report.violations.len() >= 3 {
